@@ -606,6 +606,10 @@ func compositeLits(info *types.Info, n ast.Node, qtype string) []*ast.CompositeL
 		if cl, ok := m.(*ast.CompositeLit); ok {
 			if tv, ok := info.Types[cl]; ok && typeQName(tv.Type) == qtype {
 				if _, isPtr := tv.Type.(*types.Pointer); !isPtr {
+					// `Problem{}` is the zero value a helper hands back next to "nothing found", not a report
+					if qtype == "internal/checks.Problem" && len(cl.Elts) == 0 {
+						return true
+					}
 					out = append(out, cl)
 				}
 			}
